@@ -528,7 +528,9 @@ def search(con, fn, n, seed, want_fail=True, known_cases=None):
         if gen is not None:
             try:
                 argdescs = gen(rng)
-            except Exception:
+            except Exception as e:
+                if type(e).__name__ == 'CorpusBuildError':
+                    raise
                 # generators call the real constructors; on a changed tree they may
                 # refuse: that sample is skipped (the constructors have contracts of their own)
                 gen_errors += 1
@@ -667,4 +669,10 @@ def main(argv):
 
 
 if __name__ == '__main__':
-    sys.exit(main(sys.argv))
+    try:
+        sys.exit(main(sys.argv))
+    except Exception as e:
+        if type(e).__name__ != 'CorpusBuildError':
+            raise
+        json.dump({'corpus_error': str(e)}, sys.stdout)
+        sys.exit(0)
